@@ -7,8 +7,8 @@
    spec/S_LlhPipe.v. *)
 From Coq Require Import Reals ZArith List Bool Lra Lia Permutation.
 From Coquelicot Require Import Coquelicot.
-From Sky Require Import Num NumR G_llh M_Llh M_LlhPipe S_Llh S_LlhPipe
-  P_LlhK P_LlhValue P_LlhC1 P_LlhCompose.
+From Sky Require Import Result Num NumR G_llh G_llhtdm M_Llh M_LlhPipe M_LlhTdm S_Llh S_LlhPipe
+  P_LlhK P_LlhValue P_LlhC1 P_LlhCompose P_LlhTdm.
 Import ListNotations.
 Open Scope R_scope.
 
@@ -175,6 +175,133 @@ Theorem C01_multi_dataset : forall (erfR : R -> R) opa ns (f : list R) (ds : lis
               (combine f ds)).
 Proof. exact multi_value_spec. Qed.
 Print Assumptions C01_multi_dataset.
+
+(* ======================================================================== *)
+(* deepening                                                                 *)
+
+(* 8. the domain.  For threshold > 0 and N > 0 the logarithms of the value are
+   taken at positive arguments if and only if ns < N; for ns >= N the argument
+   of the pure-background logarithm is <= 0 (floats: -inf / NaN, also when
+   N = N' because 0 * (-inf) = NaN; observed by the correspondence's malformed
+   stream); every negative ns is inside the domain whatever the ratios are. *)
+Theorem C01_domain : forall opa N ns,
+  0 < opa -> 0 < N ->
+  (0 < 1 - ns / N <-> ns < N)
+  /\ (N <= ns -> 1 - ns / N <= 0)
+  /\ (ns < 0 -> 0 < 1 - ns / N)
+  /\ (forall x, opa - 1 < ns * x -> 0 < 1 + ns * x).
+Proof. exact value_domain. Qed.
+Print Assumptions C01_domain.
+
+(* 9. N, N', N - N' come from the TrialDataManager.  After ANY history of trials
+   and n_events assignments, a trial (raw events, optional n_events argument,
+   optional selection) followed by any number of n_events assignments leaves:
+   N = the last assignment, else the argument, else the number of RAW events;
+   the selected events of THIS trial; N' their number; N - N' the difference;
+   and calculate_ns_grad2 reconstructs the same N. *)
+Theorem C01_counts_current : forall (E : Type) (st0 : tcounts E) (ops : list (tcop E))
+    (raw : list E) (arg : option Z) (sel : option (list E -> list E)) (sets : list Z),
+  let st := tc_run (ops ++ TInit raw arg sel :: map TSetN sets) st0 in
+  let N0 := match arg with Some n => n | None => Z.of_nat (length raw) end in
+  let evs := match sel with Some f => f raw | None => raw end in
+  tc_n_events st = Some (last sets N0)
+  /\ tc_events st = evs
+  /\ tc_n_selected st = Z.of_nat (length evs)
+  /\ tc_n_pure_bkg st = Some (last sets N0 - Z.of_nat (length evs))%Z
+  /\ tc_N_grad2 st = tc_n_events st.
+Proof. exact tc_counts_current. Qed.
+Print Assumptions C01_counts_current.
+
+(* without the n_events argument N counts the raw events (before the selection):
+   N - N' is the number of events the selection removed *)
+Theorem C01_default_counts_removed : forall (E : Type) (st0 : tcounts E) (ops : list (tcop E))
+    (raw : list E) (f : list E -> list E),
+  (length (f raw) <= length raw)%nat ->
+  let st := tc_run (ops ++ [TInit raw None (Some f)]) st0 in
+  tc_n_events st = Some (Z.of_nat (length raw))
+  /\ tc_n_pure_bkg st = Some (Z.of_nat (length raw - length (f raw))).
+Proof. exact tc_default_counts_removed. Qed.
+Print Assumptions C01_default_counts_removed.
+
+(* evaluate on the manager uses exactly these current counts *)
+Theorem C01_value_on_manager : forall (E : Type) (erfR : R -> R) (st0 : tcounts E)
+    (ops : list (tcop E)) (raw : list E) (arg : option Z) (sel : option (list E -> list E))
+    (sets : list Z) opa ns (ratio_of : list E -> list R),
+  (forall evs, length (ratio_of evs) = length evs) ->
+  let N := last sets (match arg with Some n => n | None => Z.of_nat (length raw) end) in
+  let evs := match sel with Some f => f raw | None => raw end in
+  tc_evaluate (RNum erfR) opa ns ratio_of (tc_run (ops ++ TInit raw arg sel :: map TSetN sets) st0)
+  = Some (Rsum (map (fun r => Lam (opa - 1) (ns * Xof (IZR N) r)) (ratio_of evs))
+          + IZR (N - Z.of_nat (length evs)) * ln (1 - ns / IZR N)).
+Proof. exact tc_evaluate_current. Qed.
+Print Assumptions C01_value_on_manager.
+
+(* 10. no selected events: only the pure-background term; an event of ratio 1
+   contributes nothing *)
+Theorem C01_no_selected_events : forall (erfR : R -> R) opa N ns,
+  evaluate_value (RNum erfR) opa N ns [] = N * ln (1 - ns / N).
+Proof. exact value_no_selected_events. Qed.
+Print Assumptions C01_no_selected_events.
+
+Theorem C01_unit_ratio_event : forall (erfR : R -> R) opa N ns (Rs : list R),
+  0 < opa < 1 -> N <> 0 ->
+  evaluate_value (RNum erfR) opa N ns (1 :: Rs)
+  = evaluate_value (RNum erfR) opa N ns Rs - ln (1 - ns / N).
+Proof. exact value_unit_ratio_event. Qed.
+Print Assumptions C01_unit_ratio_event.
+
+(* 11. zero background inside compositions: the per-row ratio is the product
+   over the factors, each factor being its own constant where its background
+   is not positive *)
+Theorem C01_zero_background_in_products : forall i e (f0 f1 : rfactor) (fs : list rfactor),
+  row_ratio i e f0 fs
+  = (if Rlt_dec 0 (nth e (snd f0) 0) then nth i (snd (fst f0)) 0 / nth e (snd f0) 0 else fst (fst f0))
+    * fold_left Rmult
+        (map (fun f : rfactor => if Rlt_dec 0 (nth e (snd f) 0)
+                                 then nth i (snd (fst f)) 0 / nth e (snd f) 0 else fst (fst f)) fs) 1
+  /\ (nth e (snd f0) 0 <= 0 -> 0 < nth e (snd f1) 0 ->
+      row_ratio i e f0 [f1] = fst (fst f0) * (nth i (snd (fst f1)) 0 / nth e (snd f1) 0)
+      /\ row_ratio i e f1 [f0] = nth i (snd (fst f1)) 0 / nth e (snd f1) 0 * fst (fst f0))
+  /\ (List.Forall (fun f : rfactor => nth e (snd f) 0 <= 0 /\ fst (fst f) = 1) (f0 :: fs) ->
+      row_ratio i e f0 fs = 1).
+Proof.
+  intros i e f0 f1 fs. split; [|split].
+  - exact (row_ratio_product i e f0 fs).
+  - exact (row_ratio_zero_bkg_factor i e f0 f1).
+  - exact (row_ratio_all_zero_bkg i e f0 fs).
+Qed.
+Print Assumptions C01_zero_background_in_products.
+
+(* 12. several datasets: one without selected events still contributes its
+   pure-background term, and leaving it out raises the value *)
+Theorem C01_multi_empty_dataset : forall (erfR : R -> R) opa ns fj Nj (f : list R)
+    (ds : list (R * list R)),
+  multi_value (RNum erfR) opa ns (fj :: f) ((Nj, []) :: ds)
+  = Nj * ln (1 - ns * fj / Nj) + multi_value (RNum erfR) opa ns f ds.
+Proof. exact multi_value_empty_dataset. Qed.
+Print Assumptions C01_multi_empty_dataset.
+
+Theorem C01_multi_skip_empty_dataset_refuted : forall (erfR : R -> R) opa ns fj Nj (f : list R)
+    (ds : list (R * list R)),
+  0 < Nj -> 0 < ns * fj -> ns * fj < Nj ->
+  multi_value (RNum erfR) opa ns (fj :: f) ((Nj, []) :: ds) < multi_value (RNum erfR) opa ns f ds.
+Proof. exact multi_value_skip_empty_dataset_refuted. Qed.
+Print Assumptions C01_multi_skip_empty_dataset_refuted.
+
+(* 13. end to end from the event selection to the value, WITHOUT the duplicate-free
+   hypothesis: props/Prop_C01_sel.v (C01_selection_to_value; uses C05's development). *)
+
+(* non-vacuity of the deepening: a manager that held 7 events with N = 50 gets a
+   new trial of 5 raw events of which a selection keeps 3, no n_events argument:
+   N = 5, N' = 3, N - N' = 2; then n_events := 9 gives N - N' = 6 *)
+Example C01_nonvacuous_counts :
+  let st0 := {| tc_n_events := Some 50%Z; tc_events := [1; 2; 3; 4; 5; 6; 7]%nat |} in
+  let keep := filter (fun n => Nat.ltb n 4) in
+  let st := tc_run ([TSetN 60%Z] ++ [TInit [1; 2; 3; 4; 5]%nat None (Some keep)]) st0 in
+  tc_n_events st = Some 5%Z /\ tc_n_selected st = 3%Z /\ tc_n_pure_bkg st = Some 2%Z
+  /\ tc_n_pure_bkg (tc_run [TSetN 9%Z] st) = Some 6%Z
+  /\ (length (keep [1; 2; 3; 4; 5]%nat) <= length [1; 2; 3; 4; 5]%nat)%nat.
+Proof. cbv zeta. repeat split; try reflexivity. cbn. lia. Qed.
 
 (* non-vacuity: the code's threshold 1e-3, N = 10, three selected events one of
    which (R = 0) sits in the Taylor regime at ns = 9.995; all hypotheses of the
